@@ -1788,7 +1788,7 @@ func (p *BinaryProtocol) WriteAnyWithDesc(desc *TypeDescriptor, val interface{},
 					if err != nil {
 						return err
 					}
-					v = string(vv)
+					return p.WriteString(vv)
 				}
 			}
 			return p.WriteBinary(vv)
